@@ -2,6 +2,8 @@ import Octo.Lemmas.GroupAgg
 import Octo.Lemmas.GroupResolve
 import Octo.Props.C01
 import Octo.Model.SqlGroupTrig
+import Octo.Lemmas.GroupTrig
+import Octo.Props.C09
 /-!
 # C03 — GROUP BY and aggregates match relational semantics
 
@@ -153,6 +155,25 @@ theorem limit0_returns_nothing (mode : Mode) (tys : List Ty) (src : Query) (g : 
   cases htc : typecheckGroup tys src g with
   | none => simp [htc] at h
   | some aggs => simp only [htc, if_true, Res.ok.injEq] at h; exact h.symm
+
+/-! ## both group-by nodes -/
+
+/-- **the TRIGGER clause does not change the final result** (C16 at the SQL level): for the node configuration the
+    planner builds from a grouping block and any trigger that selects `CustomTriggerGroupBy` (`COUNTING k`, with or
+    without `ON END OF STREAM`), on every batch input on which the expressions evaluate the node does not panic and
+    its changelog — retractions included — consolidates, row for row, to the output of `SimpleGroupBy` (C16's model
+    of it, `Octo.Trig.simpleRun`) for the same block -/
+theorem trigger_same_final_result (keys : List SExpr) (aggs : List PAgg) (t : Trig) (rows : List Row)
+    (hok : evalsOk keys aggs rows = true) :
+    ∃ out, Trig.run Trig.wlessFixed (gbConf keys aggs t) (toMsgs rows) = some out ∧
+      ∀ row, net (recs out) row = net (recs (Trig.simpleRun (gbConf keys aggs t) (toMsgs rows))) row :=
+  custom_consolidates_to_simple keys aggs t rows hok
+
+/-- the grouping keys are found through `HashManyValues`: key tuples the node treats as one group
+    (`Compare == 0` pointwise) hash equally, so the hash map cannot split a group (C09) -/
+theorem group_keys_hash_equally (a b : Row) (wa : Value.wfList a = true) (wb : Value.wfList b = true)
+    (h : rowEq a b = true) : hashMany a = hashMany b :=
+  C09.hashMany_congr a b wa wb (by simpa [rowEq] using h)
 
 /-! ## aggregate overload resolution (`GroupBy.Typecheck`) over the generated table -/
 
